@@ -3,6 +3,8 @@ package smfspace
 import (
 	"fmt"
 
+	"gitlab.com/gomidi/midi/v2/internal/verifh/refsmf"
+
 	"gitlab.com/gomidi/midi/v2/internal/verifh/engine"
 	"gitlab.com/gomidi/midi/v2/smf"
 )
@@ -242,4 +244,60 @@ func TFName(tf smf.TimeFormat) string {
 		return "smpte"
 	}
 	return "metric"
+}
+
+// SweepCase is one member of a scalar sweep: a complete history on a private alphabet.
+type SweepCase struct {
+	Cfg  Cfg
+	Al   []Msg
+	Ops  []Op
+	Name string
+	Val  interface{}
+}
+
+// ValueSweeps enumerates value dimensions the class alphabets do not cover:
+// every channel status 0x80..0xEF (three messages of the same status in a row,
+// so that running status applies, then a different status), every meta type
+// (except end-of-track) with four payload sizes, and track counts around the
+// one-byte boundary.
+func ValueSweeps() []SweepCase {
+	var out []SweepCase
+	data := func(st byte, k int) []byte {
+		if refsmf.DataLen(st) == 1 {
+			return []byte{st, byte(0x11 * (k + 1))}
+		}
+		return []byte{st, byte(0x11 * (k + 1)), byte(0x7F - k)}
+	}
+	for _, nors := range []bool{false, true} {
+		cfg := Cfg{Ctor: 0, NoRS: nors, TF: smf.MetricTicks(96)}
+		for st := 0x80; st <= 0xEF; st++ {
+			other := byte(0x80 + (st+0x11)%0x70)
+			al := []Msg{{"a", data(byte(st), 0)}, {"b", data(byte(st), 1)}, {"c", data(byte(st), 2)}, {"other", data(other, 0)}}
+			ops := []Op{{Kind: OpAdd, D: 0, M1: 0}, {Kind: OpAdd, D: 1, M1: 1}, {Kind: OpAdd, D: 0, M1: 3}, {Kind: OpAdd, D: 2, M1: 2}, {Kind: OpAdd, D: 0, M1: 0}, {Kind: OpClose, D: 1}, {Kind: OpSMFAdd}}
+			out = append(out, SweepCase{cfg, al, ops, "status", st})
+		}
+		for typ := 0; typ < 0x80; typ++ {
+			if typ == 0x2F {
+				continue
+			}
+			for _, n := range []int{0, 1, 3, 130} {
+				pl := make([]byte, n)
+				for i := range pl {
+					pl[i] = byte(i + typ)
+				}
+				al := []Msg{{"note", []byte{0x93, 0x40, 0x41}}, {"meta", smf.MetaUndefined(byte(typ), pl)}}
+				ops := []Op{{Kind: OpAdd, D: 0, M1: 0}, {Kind: OpAdd, D: 1, M1: 1}, {Kind: OpAdd, D: 0, M1: 0}, {Kind: OpSMFAdd}}
+				out = append(out, SweepCase{cfg, al, ops, "meta-type", fmt.Sprintf("%02X/%d", typ, n)})
+			}
+		}
+		for _, nt := range []int{1, 2, 3, 16, 127, 128, 255, 256, 257, 1000} {
+			al := []Msg{{"note", []byte{0x90, 0x40, 0x41}}}
+			var ops []Op
+			for t := 0; t < nt; t++ {
+				ops = append(ops, Op{Kind: OpAdd, D: uint32(t % 3), M1: 0}, Op{Kind: OpSMFAdd})
+			}
+			out = append(out, SweepCase{Cfg{Ctor: 1, NoRS: nors, TF: smf.MetricTicks(96)}, al, ops, "track-count", nt})
+		}
+	}
+	return out
 }
